@@ -19,8 +19,6 @@ NOT_APPLICABLE = {
     "C05": "whole-framework data-race freedom over all goroutine interleavings (goroutine creation, channels, errgroup, ants pool, real epoll) has no finite SMT encoding within reach of a hand-written go/ssa encoder; see DESIGN.md section 6",
     "C06": "liveness/ordering of shutdown across the stop goroutine, every loop goroutine, ticker and errgroup.Wait needs the same whole-program concurrent model as C05; sequential lemmas are decided under C04/C03; see DESIGN.md section 6",
 }
-for _p in ("C01", "C02", "C03", "C04", "C07", "C08", "C13", "C18", "C19"):
-    NOT_APPLICABLE.setdefault(_p, "check not built yet in this session (work in progress, see DESIGN.md section 10)")
 
 PROPS["C20"] = {
     "level": "other",
@@ -254,7 +252,6 @@ _LOOP_COMMON = {"pkgdir": ".", "mode": "int", "unwind": 8, "contracts": ["bytesl
                 "extra": _LOOP_EXTRA, "rewrites": _LOOP_REWRITES}
 
 PROPS["C08"] = {
-    "claimed": False,
     "level": "other",
     "level_text": "Bounded symbolic execution of the real readUDP / Write / SendTo / Writev path on a UDP listener over a ghost kernel holding a datagram of symbolic length (0..65507), content and source address; two consecutive datagrams; z3 decides every obligation.",
     "level_note": "The kernel is a stub (one datagram waiting, recvfrom truncates to the buffer, sendto records destination and bytes); concurrent senders are the kernel's queueing and are outside; IPv4 source addresses in the harness (the conversion code for IPv6 is covered by C17). Trusted: go/ssa lowering, SSA->SMT translation, z3.",
@@ -267,7 +264,6 @@ PROPS["C08"] = {
 }
 
 PROPS["C01"] = {
-    "claimed": False,
     "level": "other",
     "level_text": "Bounded symbolic execution of one read event of the real I/O path (eventloop.read, conn.processIO, conn.Read/Next/Peek/Discard/WriteTo, inbound elastic ring buffer, real poller Trigger) from an arbitrary valid connection state over a ghost kernel with symbolic pending bytes, segmentation (short reads in LT), FIN and chunk limit; the handler's view is compared with the abstract stream inbound++pending at a free position; the representation invariant is re-proved, so a pass is inductive over event histories.",
     "level_note": "One event per harness; <= 2 successful read(2) calls per event (quick), sizes <= 2^31; the kernel is a stub with the contract stated in DESIGN.md (LT: any non-empty prefix; ET: exactly min(pending, len), new data raises a new edge). Configurations: LT / ET+chunk, default build (poll_opt and gc_opt differ only in dispatch/registry and are covered by C14 / thorough). Trusted: go/ssa lowering, SSA->SMT translation, z3, ghost kernel contract.",
@@ -280,7 +276,6 @@ PROPS["C01"] = {
 }
 
 PROPS["C04"] = {
-    "claimed": False,
     "level": "other",
     "level_text": "Bounded symbolic execution of one lifecycle event of the real loop code (eventloop.close/read/wake/closeConns, conn.processIO, the Close/Wake/AsyncWrite task closures run through the real poller queue) from an arbitrary valid connection state, for every close cause, with handlers that close synchronously inside OnTraffic/OnClose, and for requests reaching a closed connection whose descriptor number was re-used; ghost callback counters and the descriptor ledger are the oracle.",
     "level_note": "One event per harness (the representation invariant makes a pass inductive over event histories); interleavings of several goroutines posting close requests are C03's subject (the tasks are executed here in queue order). Trusted: go/ssa lowering, SSA->SMT translation, z3, ghost kernel contract.",
@@ -293,7 +288,6 @@ PROPS["C04"] = {
 }
 
 PROPS["C02"] = {
-    "claimed": False,
     "level": "other",
     "level_text": "Bounded symbolic execution of one outbound operation of the real I/O path (conn.write/writev/open, asyncWrite(v) tasks through the real poller queue, eventloop.write, the real elastic ring+list buffer) from an arbitrary valid outbound-buffer state over a ghost kernel that accepts any prefix; conservation and order of wire++buffer are checked at a free position, LT write-interest and ET re-flush obligations included; the invariant is re-proved (inductive over operation histories).",
     "level_note": "One operation per harness; <= 2 write(2)/writev(2) calls per event (quick); payload sizes <= 2^31; Writev with 1..2 segments (quick) / 3 (thorough) plus the concrete 1025-segment case; kernel = stub contract (short write => socket buffer full; ET EAGAIN after short write). Eventual drain ('never remains unsent forever') is reduced to the one-step progress/re-arm obligations. Trusted: go/ssa lowering, SSA->SMT translation, z3.",
@@ -302,11 +296,10 @@ PROPS["C02"] = {
     "bounds": {"operations": 1, "writes_per_event": 2, "writev_segments": "1..2 (+1025 concrete)", "sizes": "<= 2^31"},
     "outside": ["real kernel behaviour beyond the stub contract", "multi-goroutine issue order (C03)"],
     "assumptions": ["ghost kernel contract", "pool contracts (C12)"],
-    "units": [dict(_LOOP_COMMON, name="loop-outbound", files=["harness/gnet/vloop_world.go", "harness/gnet/c14_pick.go", "harness/gnet/c02_outbound.go"], cfg={"vcfg": {"writes": 2, "nodes": 1, "segs": 2}})],
+    "units": [dict(_LOOP_COMMON, name="loop-outbound", files=["harness/gnet/vloop_world.go", "harness/gnet/c14_pick.go", "harness/gnet/c02_outbound.go"], cfg={"vcfg": {"writes": 2, "nodes": 1, "segs": 2, "any_shape": 0}}, cfg_thorough={"vcfg": {"writes": 3, "nodes": 2, "segs": 3, "any_shape": 1}})],
 }
 
 PROPS["C18"] = {
-    "claimed": False,
     "level": "other",
     "level_text": "Bounded symbolic execution of single events of the real I/O path with ONE injected system-call failure (symbolic call site among the calls the event makes, symbolic errno from a realistic set) plus the accept/registration error paths; z3 decides isolation obligations: failed connection closed once with a non-nil error and its descriptor released, no engine-stopping result, bystander connection untouched, retryable conditions invisible.",
     "level_note": "One fault per event (pairs of faults are outside the quick bound); fault sites = every redirected call the event reaches (read, write, writev, epoll_ctl, close, accept); errno set {ECONNRESET, EPIPE, ETIMEDOUT, EBADF, ENOMEM, EINVAL, ENOBUFS (+EINTR mapped)}; epoll_wait EINTR belongs to the Polling loop (C03). Trusted: go/ssa lowering, SSA->SMT translation, z3, ghost kernel.",
@@ -328,7 +321,6 @@ def _gnet_stop_rewrite(src, out):
 
 
 PROPS["C19"] = {
-    "claimed": False,
     "level": "other",
     "level_text": "Bounded symbolic execution of the real control API (Engine.Validate/CountConnections/Dup/DupListener/Register/Stop, eventloop.Register/Enroll/Execute argument checks, the registration task's completion callback) over every handle state; Stop's poll loop runs with the terminal flag flipping at a nondeterministic poll and a context that may already have ended.",
     "level_note": "Sequential only: calls racing with an ongoing shutdown from several goroutines and the goroutine/channel hand-off of Register/Enroll through the ants pool are NOT covered ('exactly one result' is reduced to: the registration task invokes its completion callback exactly once on every path). Stop's loop: the ticker is an opaque channel, isShutdown() inside the loop is redirected to a stub that may complete the shutdown at any poll (monotone). Trusted: go/ssa lowering, SSA->SMT translation, z3.",
@@ -342,7 +334,6 @@ PROPS["C19"] = {
 }
 
 PROPS["C13"] = {
-    "claimed": False,
     "conc": True,
     "engine": "symgo-conc",
     "level": "model_checking",
@@ -395,7 +386,6 @@ def _scale_const(name, val):
 
 
 PROPS["C03"] = {
-    "claimed": False,
     "conc": True,
     "engine": "symgo-conc",
     "level": "model_checking",
@@ -434,4 +424,16 @@ PROPS["C03"] = {
              {"name": "scaled_L0_L1_loop", "threads": ["VT_P_L0", "VT_P_L1", "VT_Loop"], "rounds": 3, "unwind": 3, "unwind_fn": {"Poller).Polling": 8}, "tasks": 2, "tier": "thorough"},
          ]},
     ],
+}
+
+PROPS["C07"] = {
+    "level": "other",
+    "level_text": "Bounded symbolic execution of single events of the real loop code over a ghost kernel that keeps a descriptor ledger: every redirected system call (read, write, writev, epoll_ctl, close, accept, recvfrom, sendto, dup) asserts that the framework owns the descriptor number it passes, that nothing is closed twice and that user-owned (Dup) and foreign (re-used number) descriptors are never touched; run over the lifecycle events of C04 (all close causes, synchronous closes inside callbacks, stale requests after number re-use) plus close-with-unsent-output under a failing kernel, listener/poller close-once and Dup ownership.",
+    "level_note": "One event per harness (inductive through the representation invariant 'opened <=> registered <=> descriptor owned and not closed'); 'closed at the latest when Run returns' is reduced to closeConns/closeEventLoops/Poller.Close releasing everything exactly once (the goroutine choreography of Run/stop is C06, not claimed). Client enrol paths (socket.Dup + Trigger through the ants pool) are not executed: the descriptor leak on their error returns (DESIGN.md F11) is a reading-level finding outside this check. Trusted: go/ssa lowering, SSA->SMT translation, z3, ghost kernel.",
+    "design_ref": "DESIGN.md section 5 (loop-step family, C07)",
+    "explanation": "Ledger assertions live in the ghost kernel (internal/vk, labels C07.*) and are therefore evaluated on every path of every loop-step harness of this unit.",
+    "bounds": {"events": 1, "writes_per_event": 3},
+    "outside": ["Client.EnrollContext / eventloop.enroll worker goroutine", "interleavings with other goroutines opening descriptors (modelled as 'the number is foreign-owned' pre-states)"],
+    "assumptions": ["ghost kernel contract"],
+    "units": [dict(_LOOP_COMMON, name="loop-fd", files=["harness/gnet/vloop_world.go", "harness/gnet/c14_pick.go", "harness/gnet/c04_lifecycle.go", "harness/gnet/c07_fd.go"], cfg={"vcfg": {"nodes": 1}})],
 }
